@@ -190,7 +190,8 @@ def audit(prop_mods):
         os.unlink(tmp)
     out = p.stdout
     thms = {}
-    for m in re.finditer(r"'([^']+)' (does not depend on any axioms|depends on axioms: \[([^\]]*)\])", out):
+    # (names may end in primes: 'Ns.thm'' depends on axioms ...)
+    for m in re.finditer(r"'(\S+?)' (does not depend on any axioms|depends on axioms: \[([^\]]*)\])", out):
         ax = [a.strip() for a in (m.group(3) or '').replace('\n', ' ').split(',') if a.strip()]
         thms[m.group(1)] = ax
     discharged = 0
